@@ -17,9 +17,16 @@ import (
 	"time"
 )
 
+// SpecDir is /verif/spec unless VERIF_DIR points at a working copy.
+var SpecDir = func() string {
+	if d := os.Getenv("VERIF_DIR"); d != "" {
+		return filepath.Join(d, "spec")
+	}
+	return "/verif/spec"
+}()
+
 const (
-	SpecDir = "/verif/spec"
-	jar     = "/opt/veriftools/tla/tla2tools.jar:/opt/veriftools/tla/CommunityModules-deps.jar"
+	jar = "/opt/veriftools/tla/tla2tools.jar:/opt/veriftools/tla/CommunityModules-deps.jar"
 )
 
 type Opts struct {
